@@ -53,6 +53,9 @@ class C13Ops(Harness):
                     yield f"op-{t0}-{op}-{t1}", dict(t0=t0, op=op, t1=t1, nd=False)
         for t0, op in itertools.product(("int64", "float32", "int16"), ("fill_float", "fill_npf32", "fill_npi64", "filln_float", "isub", "div", "setdtype")):
             yield f"op2d-{t0}-{op}", dict(t0=t0, op=op, t1="float64" if op != "setdtype" else "int16", nd=True)
+        # normalisations of 2D histograms along one axis / overall: the element type is promoted to hold fractions, never narrowed
+        for t0, op in itertools.product(("int64", "float32", "float128", "int16"), ("partial", "normalize")):
+            yield f"op2d-{t0}-{op}", dict(t0=t0, op=op, t1=None, nd=True)
 
     def declare(self, cx, p):
         x = {"f": cx.ints("f", 2, 0, 50), "q": cx.ints("q", 2, 0, 50), "g": cx.ints("g", 2, 0, 50), "k": cx.int("k", 1, 8), "n": cx.pyint("n", 1, 3), "v": cx.pyfloat("v")}
@@ -77,7 +80,7 @@ class C13Ops(Harness):
             cx.assume(x["v"] >= 0, x["v"] <= 2)
             if p["op"] in ("sub", "isub"):
                 cx.assume(*[a >= b for a, b in zip(x["f"], x["g"])])
-            if p["op"] == "normalize":
+            if p["op"] in ("normalize", "partial"):
                 cx.assume(zsum(cx.t(i) for i in x["f"]) > 0)
         return x
 
@@ -156,6 +159,8 @@ class C13Ops(Harness):
                 return r
             if op == "normalize":
                 return h.normalize()
+            if op == "partial":
+                return h.partial_normalize(0)
             if op == "merge":
                 return h.merge_bins(2)
             h.dtype = t1
@@ -240,7 +245,7 @@ class C13Ops(Harness):
             exp_dt, ref = promote(t0, "float64"), [f[0] * k4, f[1] * k4]
         elif op in ("div", "idiv"):
             exp_dt, ref = promote(t0, "float64"), [z3.ToReal(f[0]) / z3.ToReal(n), z3.ToReal(f[1]) / z3.ToReal(n)]
-        elif op == "normalize":
+        elif op in ("normalize", "partial"):
             exp_dt, ref = promote(t0, "float64"), [z3.ToReal(f[0]) / z3.ToReal(f[0] + f[1]), z3.ToReal(f[1]) / z3.ToReal(f[0] + f[1])]
         else:
             exp_dt, ref = t0, [f[0] + f[1]]
